@@ -5,6 +5,7 @@ From K Require Import Lib.Bits Lib.Types Model.Machine Model.Exec Spec.ISA
 Import ListNotations.
 From K Require Import Proofs.TwoByte.
 From K Require Import Model.Cost Model.Addressing Proofs.MemProofs Proofs.StepProofs Proofs.StepRefines Proofs.StepRefinesCtl Proofs.StepRefines2.
+From K Require Import Proofs.FourByte Proofs.StepRefines4.
 Open Scope Z_scope.
 
 (* [agree t w0 w1 i]: handler family t, run on the opcode words, executes instruction i - same family, same
@@ -99,9 +100,25 @@ Theorem step_stc_byte :
     exists s', sem_ref (IStcB rd) 2 s = Some s' /\ step s = Ok n (set_opc (pc s) s').
 Proof. exact step_stc_b_proof. Qed.
 
+(* every two-byte encoding of a listed unimplemented instruction: the step returns an error, for any state *)
+Theorem step_unimplemented_rejected :
+  forall s w w1 w2 w3 w4,
+    bus_bytes_ok s -> pc s mod 2 = 0 -> 0 <= pc s -> pc s + 2 < 4294967296 ->
+    mem_read SW s (pc s) = Some w ->
+    decode_ref w w1 w2 w3 w4 = Some (IUnimplemented, 2) ->
+    step s = Err.
+Proof. exact step_unimplemented_proof. Qed.
+
+(* four-byte instructions with an operand word: everything but the operand comes from the first word *)
+Theorem four_byte_decode_operand :
+  forall w0 w1 w2 w3 w4 i, decode_ref w0 w1 w2 w3 w4 = Some (i, 4) -> operand_shape w0 w1 i.
+Proof. exact four_byte_operand. Qed.
+
 Print Assumptions first_word_dispatch.
 Print Assumptions unimplemented_rejected.
 Print Assumptions second_word_dispatch_01.
 Print Assumptions second_word_dispatch_78_7x.
 Print Assumptions two_byte_decode_ignores_later_words.
 Print Assumptions step_stc_byte.
+Print Assumptions step_unimplemented_rejected.
+Print Assumptions four_byte_decode_operand.
